@@ -6,3 +6,5 @@ open PgmVerif
 #print axioms PgmVerif.C15_do_edges
 #print axioms PgmVerif.acyclic_add_edge
 #print axioms PgmVerif.hasPath_complete
+#print axioms PgmVerif.C15_step_book
+#print axioms PgmVerif.C15_bookkeeping
